@@ -435,4 +435,126 @@ def _len(v):
         return None
 
 
-SUBCHECKS = [RoundTrip()]
+class FlakyStream:
+    """A binary source whose n-th read() raises once and then carries on."""
+
+    def __init__(self, content, chunk, fail_at, exc):
+        self.content, self.chunk, self.fail_at, self.exc = content, chunk, fail_at, exc
+        self.pos = 0
+        self.reads = 0
+        self.failed = False
+
+    def read(self, size=-1):
+        self.reads += 1
+        if self.reads == self.fail_at and not self.failed:
+            self.failed = True
+            raise self.exc('transient failure of the source stream')
+        out = self.content[self.pos:self.pos + self.chunk]
+        self.pos += len(out)
+        return out
+
+
+class FaultedStore(SubCheck):
+    """One transient failure while the value file is being written: the value is rejected or stored intact, never altered."""
+
+    name = 'store_with_transient_fault'
+
+    def examples(self, tier):
+        return 150 if tier == 'quick' else 4000
+
+    def strategy(self, tier):
+        lines = st.lists(st.sampled_from([b'line-one', b'x', b'', b'0123456789' * 5]), min_size=1, max_size=8).map(lambda ls: b'\n'.join(ls))
+        return st.fixed_dictionaries(
+            {
+                'T': st.sampled_from([0, 1, 8, 64]),
+                'kind': st.sampled_from(['bytes', 'text', 'pickle', 'stream', 'stream']),
+                'content': lines,
+                'chunk': st.sampled_from([3, 16, 1000]),
+                'fault': st.tuples(st.sampled_from(['write', 'write', 'source-read', 'open']), st.integers(1, 6), st.sampled_from(['OSError', 'TimeoutError', 'ENOSPC'])),
+                'accessor': st.sampled_from(['set', 'add', 'push']),
+            }
+        )
+
+    def execute(self, case, env):
+        import errno
+
+        import diskcache
+
+        from ..conc import get_seams
+        from ..seams import Controller
+
+        seams = get_seams(env)
+        path = env.scratch.fresh('c01f')
+        cache = diskcache.Cache(path, disk_min_file_size=case['T'])
+        content = case['content']
+        kind = case['kind']
+        where, nth, excname = case['fault']
+        exc = {'OSError': OSError, 'TimeoutError': TimeoutError, 'ENOSPC': lambda *a: OSError(errno.ENOSPC, 'No space left on device')}[excname]
+        fired = [False]
+        writes = [0]
+
+        class Inject(Controller):
+            def event(self, kind_, label, con=None):
+                if kind_ == 'write' and where == 'write':
+                    writes[0] += 1
+                    if writes[0] == nth and not fired[0]:
+                        fired[0] = True
+                        raise exc('transient write failure')
+                if kind_ == 'open' and where == 'open' and 'x' in label and not fired[0]:
+                    fired[0] = True
+                    raise exc('transient open failure')
+
+        read = False
+        if kind == 'bytes':
+            value, expected = content, content
+        elif kind == 'text':
+            value = expected = content.decode('ascii')
+        elif kind == 'pickle':
+            value = expected = [content, {'k': content}]
+        else:
+            stream = FlakyStream(content, case['chunk'], nth if where == 'source-read' else -1, exc if where == 'source-read' else OSError)
+            value, expected, read = stream, content, True
+        try:
+            cache.set('k', 'prev')
+            seams.ctl = Inject()
+            try:
+                try:
+                    if case['accessor'] == 'set':
+                        cache.set('k', value, read=read)
+                        key = 'k'
+                    elif case['accessor'] == 'add':
+                        cache.delete('k')
+                        cache.add('k', value, read=read)
+                        key = 'k'
+                    else:
+                        key = cache.push(value, read=read)
+                    raised = None
+                except Exception as e:
+                    raised = e
+            finally:
+                seams.ctl = Controller()
+            fault_fired = fired[0] or (read and value.failed)
+            if raised is not None:
+                if not fault_fired:
+                    raise Violation('C01/store-raised-without-fault/%s' % type(raised).__name__, 'storing %s raised %r although no fault was injected' % (short(expected, 80), raised))
+                if case['accessor'] == 'set' and not same(cache.get('k'), 'prev'):
+                    raise Violation('C01/rejected-but-altered', 'set raised %r but the key now holds %s' % (raised, short(cache.get('k'), 80)))
+                return {'nontrivial': True, 'classes': ['rejected', 'fault=' + where]}
+            try:
+                got = cache.get(key, 'MISSING')
+            except Exception as e:
+                got = 'lookup raised %r' % (e,)
+            if not same(got, expected):
+                raise Violation(
+                    'C01/silently-altered/%s/%s' % (kind, where),
+                    'a transient %s at %s #%d did not make the store fail, and the value came back altered: stored %s (len %d), got %s (len %s)\nT=%d accessor=%s'
+                    % (excname, where, nth, short(expected, 80), len(expected), short(got, 80), len(got) if hasattr(got, '__len__') else '-', case['T'], case['accessor']),
+                )
+            return {'nontrivial': fault_fired, 'classes': ['stored-intact', 'fault=' + where] + (['fault-fired'] if fault_fired else [])}
+        finally:
+            seams.ctl = Controller()
+            cache.close()
+            env.scratch.drop(path)
+
+
+SUBCHECKS = [RoundTrip(), FaultedStore()]
